@@ -1,0 +1,25 @@
+//go:build verif
+
+// Contracts (machine-checked by /verif/engine, see /verif/DESIGN.md). Comment-only file.
+package packet
+
+// ---- C05: the command-graph decoder terminates ------------------------------------------------------------------
+// AvailableCommands.Decode is the one packet decoder whose loops are not driven by reading the payload: after the nodes
+// are read, a work queue is processed until it is empty. Each pass of the outer loop either removes at least one node
+// (the queue gets strictly shorter) or returns the "stopped cycling" error, so the decoder cannot spin on a cyclic
+// redirect graph. Variants: loop 1 (reading nodes) commands - i; loop 2 (passes) len(queue); loop 3 (one pass) len(queue) - i.
+//@ func (*AvailableCommands).Decode
+//@   props C05
+//@   errpanics
+//@   checks panic alloc
+//@   ghostpre
+//@   loop 1: invariant i >= 0
+//@   loop 1: decreases commands - i
+//@   loop 2: invariant true
+//@   loop 2: decreases len(queue)
+//@   loop 3: invariant i >= 0 && len(queue) <= athead(2, len(queue)) && (cycling ==> len(queue) < athead(2, len(queue)))
+//@   loop 3: decreases len(queue) - i
+//@ func removeWN
+//@   props C05
+//@   requires 0 <= i && i < len(s)
+//@   ensures [one-shorter] len(result) == len(s) - 1
